@@ -101,7 +101,8 @@ def helper_values(fn_name, nmax):
     return out
 
 
-def _steps_check(ctx, pid, kind, cfgs, search_n, table_n, helper_n, deps):
+def _steps_check(ctx, pid, kind, cfgs, search_n, table_n, helper_n, deps, dense_n=None):
+    dense_n = dense_n or table_n
     from . import design
     ref = design.refines(ctx, kind)
     traces = record.record_many(cfgs)
@@ -156,7 +157,14 @@ def _steps_check(ctx, pid, kind, cfgs, search_n, table_n, helper_n, deps):
     claims += helpers
     for (n, s), o in optimum.items():
         claims.append({"kind": kind, "n": n, "s": s, "v": o, "src": f"ExecOpt optimum n={n} s={s}"})
-    bad = tables(ctx, [{k: c[k] for k in ("kind", "n", "s", "v")} for c in claims], table_n)
+    # dense box with every s; guided large-n claims in a second, s-limited table run
+    dense = [i for i, c in enumerate(claims) if c["n"] <= dense_n]
+    sparse = [i for i, c in enumerate(claims) if c["n"] > dense_n]
+    bad = [dense[b] for b in tables(ctx, [{k: claims[i][k] for k in ("kind", "n", "s", "v")} for i in dense], dense_n)]
+    if sparse:
+        smax = max(min(claims[i]["s"], claims[i]["n"] - 1) for i in sparse)
+        bad += [sparse[b] for b in tables(ctx, [{k: claims[i][k] for k in ("kind", "n", "s", "v")} for i in sparse],
+                                          max(claims[i]["n"] for i in sparse), smax)]
     for b in bad:
         c = claims[b]
         is_opt = c["src"].startswith("ExecOpt")
@@ -214,16 +222,18 @@ def check_c05(ctx):
     sn, tn, hn = (10, 40, 60) if q else (14, 90, 150)
     cfgs = boxes.multistage(12 if q else 20)
     suspects, scanned = planner_scan(ctx, 200 if q else 500, 12)
+    dense_n = max(tn, hn)
     for n, s, traj in sorted(suspects)[:16]:
         cfgs.append(mkcfg("Multistage", max_n=n, ram=0, disk=s, traj=traj))
-        tn = max(tn, n)
     for n in range((13 if q else 21), tn + 1):
         for s in range(1, n):
             for t in (0, 1):
                 cfgs.append(mkcfg("Multistage", max_n=n, ram=0, disk=s, traj=t))
     cfgs += boxes.revolve_family(14 if q else 30, (1, 2, 3, 4, 5), boxes.COSTS8 if q else boxes.COSTS12,
                                  classes=("Revolve",))
-    viols, cov = _steps_check(ctx, "C05", "bin", cfgs, sn, tn, hn, 0)
+    viols, cov = _steps_check(ctx, "C05", "bin", cfgs, sn, tn, hn, 0, dense_n=dense_n)
+    cov["planner_entries_scanned"] = scanned
+    cov["guided_configurations"] = min(len(suspects), 16)
     return viols, cov, ["beyond the exhaustively searched box the Griewank-Walther theorem is assumed: "
                         "the check there is 'implementation = closed form = recurrence'"]
 
@@ -257,10 +267,12 @@ def check_c06(ctx):
     sn, tn, hn = (11, 40, 60) if q else (15, 80, 120)
     cfgs = boxes.mixed(tn)
     suspects, scanned = mixed_planner_scan(ctx, 200 if q else 400, 20)
+    dense_n = max(tn, hn)
     for n, s in suspects[:8]:
         cfgs.append(mkcfg("Mixed", max_n=n, ram=s, st=1))
-        tn = max(tn, n)
-    viols, cov = _steps_check(ctx, "C06", "mix", cfgs, sn, tn, hn, 1)
+    viols, cov = _steps_check(ctx, "C06", "mix", cfgs, sn, tn, hn, 1, dense_n=dense_n)
+    cov["planner_entries_scanned"] = scanned
+    cov["guided_configurations"] = min(len(suspects), 8)
     # "this number does not depend on the chosen storage"
     return viols, cov, ["beyond the exhaustively searched box the recurrence of Maddison (2024) is "
                         "assumed: the check there is 'implementation = recurrence'"]
@@ -268,7 +280,7 @@ def check_c06(ctx):
 
 def check_c07(ctx):
     q = ctx.tier == "quick"
-    costs = boxes.COSTS6 if q else boxes.COSTS12
+    costs = boxes.COSTS6 if q else (boxes.COSTS12 + boxes.FRAC)
     if q:
         hbox = dict(nmax=8, cms=(1, 2), cds=(0, 1, 2))
         dn, rn = 9, 11
@@ -316,7 +328,7 @@ def check_c07(ctx):
         p = t["p"]
         n = p["max_n"]
         cost = p["uf"] * v["cnt"]["nF"] + p["wd"] * v["cnt"]["nDW"] + p["rd"] * v["cnt"]["nDR"]
-        cvi = costidx[(p["uf"], p["ub"], p["wd"], p["rd"])]
+        cvi = costidx[(p["uf"], p["ub"], p["wd"], p["rd"]) + ((p["scale"],) if p.get("scale", 1) != 1 else ())]
         order_claims.append({"cls": t["cls"], "n": n, "cm": p["ram"],
                              "cd": p["disk"] if t["cls"] == "HRevolve" else 0, "cv": cvi,
                              "cost": cost})
